@@ -12,7 +12,7 @@ WIT = ["order_occurrences", "cancel_occurrences", "cancel_later_than_order", "ca
        "spec_time_none", "spec_time_empty", "spec_time_duplicate", "altered_order_accepted"]
 RULE = ("one probe event carrying every single hook specification (9 hook kinds x time lists None/[]/[t]/[t,t']/[t,t] x market "
         "filters) and every pair of specifications, run through the real runner in a two-session, three-market (incl. index "
-        "market) trading scenario with deviations of schedules and agent programs; invocations recorded by the probe are "
+        "market) trading scenario (also without any logger attached) with deviations of schedules and agent programs; invocations recorded by the probe are "
         "compared as a multiset with the occurrences recorded by the probe markets; distinct = outcome digests")
 
 MENU13 = [[], [bl(0, 101)], [sl(0, 99)], [bl(1, 101)], [sl(1, 99)], [CL], [bl(0, 100), sl(1, 100)], [["C", "dead"]]]
@@ -29,7 +29,7 @@ def all_specs():
     return out
 
 
-def scn_for(name, specs, alter=None, two_events=False):
+def scn_for(name, specs, alter=None, two_events=False, noplacement=False):
     markets = [dict(name="M0", shares=1), dict(name="M1", shares=2),
                dict(name="IDX", cls="ProbeIndexMarket", components=["M0", "M1"])]
     ags = [dict(name="A0", menu=MENU13, program=[1, 3, 1, 5], markets=["M0", "M1"]),
@@ -43,6 +43,9 @@ def scn_for(name, specs, alter=None, two_events=False):
         evnames = ["E", "E2"]
     # the event is listed under the FIRST session; its hooks are registered for the whole run
     sessions = [S(0, 2, True, False, maxNormalOrders=2, events=evnames), S(1, 2, True, True, maxNormalOrders=2)]
+    if noplacement:
+        # a session without order placement (steps in which nobody is asked) between two trading sessions
+        sessions = [S(0, 1, True, True, maxNormalOrders=2, events=evnames), S(1, 2, False, False), S(2, 1, True, True, maxNormalOrders=2)]
     return Scenario(name, mkcfg(sessions, markets=markets, agents=ags, events=ev))
 
 
@@ -71,6 +74,15 @@ def single_scenarios():
     for sp in all_specs():
         n = "single:" + spec_name(sp)
         sc[n] = scn_for(n, [sp])
+    # every hook kind (un-timed, unfiltered) in a run that has no logger attached
+    for (ty, b) in HOOK_KINDS:
+        n = "single:%s:no_logger" % spec_name([ty, b, None, None])
+        sc[n] = scn_for(n, [[ty, b, None, None]])
+        sc[n].meta = dict(sc[n].meta, logger="none")
+    for (ty, b) in HOOK_KINDS:
+        for tm in (None, [1], [2]):
+            n = "single:%s:noplacement_session" % spec_name([ty, b, tm, None])
+            sc[n] = scn_for(n, [[ty, b, tm, None]], noplacement=True)
     sc["alter:order-before"] = scn_for("alter:order-before", [["order", True, None, None]], alter=["price", 97.5])
     return sc
 
